@@ -75,6 +75,32 @@ def steps_for(h, rng, np, vars_, tr, vdims=None):
             out += tr.steps([c])
             continue
         r = c["r"]
+        if len(r["subs"]) > 1:
+            # a list of subarrays: one rank issues it, the others take part in the same varn call with nothing
+            owner = rng.randrange(np)
+            a0 = tr.access_args(r, k, True)
+            base = {kk: vv for kk, vv in a0.items() if kk not in ("starts", "counts", "n")}
+            pr = {}
+            for rank in range(np):
+                a = dict(base)
+                if rank == owner:
+                    a.update(starts=a0["starts"], counts=a0["counts"])
+                    if k == "put":
+                        a["vals"] = c["tok"]
+                    else:
+                        a["n"] = a0["n"]
+                else:
+                    a.update(starts=[r["subs"][0]["start"]], counts=[[0] * len(r["subs"][0]["count"])])
+                    if k == "put":
+                        a["vals"] = []
+                    else:
+                        a["n"] = 0
+                a["mode"] = "coll"
+                pr[str(rank)] = a
+            st = dict(pr["0"])
+            st.update(op=k, obs=tr.obs, pr={kk: vv for kk, vv in pr.items() if kk != "0"})
+            out.append(st)
+            continue
         sub = r["subs"][0]
         parts = split(sub, np, rng)
         tokmap = dict(zip(lin_elems(shapes[r["v"]], sub), c.get("tok", [])))
